@@ -10,6 +10,8 @@
 #include <stdio.h>
 #include <stdlib.h>
 #include <string.h>
+#include <unistd.h>
+#include <fcntl.h>
 
 #define NBW 40
 #define NB (64 * NBW)
@@ -57,28 +59,18 @@ static long m_next(const mset *m, long prev, int pol) { long x; for (x = prev + 
 static int m_empty(const mset *m) { return !m->tail && m_first(m, 1) < 0; }
 static int sgn(long v) { return v < 0 ? -1 : v > 0 ? 1 : 0; }
 
-int main(int argc, char **argv)
+struct bspec { unsigned c, al; int inf; unsigned long w[4]; };
+static int quiet;
+static int run_case(const char *fn, int alias, int nb, const struct bspec *BS, const unsigned long *S, const unsigned long *Min)
 {
-  int ai = 1, alias, nb, ns, nm, i;
-  const char *fn;
   struct hwloc_bitmap_s *B[3] = { 0, 0, 0 };
-  unsigned long S[4] = { 0, 0, 0, 0 }, M[4] = { 0, 0, 0, 0 };
+  unsigned long M[4];
   mset A, Bm, R, E;
   unsigned x;
-  if (argc < 4) return 3;
-  fn = argv[ai++]; alias = atoi(argv[ai++]); nb = atoi(argv[ai++]);
-  for (i = 0; i < nb && i < 3; i++) {
-    unsigned long w[4]; unsigned c, al; int inf, k;
-    if (ai + 7 > argc) return 3;
-    c = strtoul(argv[ai++], 0, 0); al = strtoul(argv[ai++], 0, 0); inf = atoi(argv[ai++]);
-    for (k = 0; k < 4; k++) w[k] = strtoul(argv[ai++], 0, 0);
-    if (c < 1 || c > 4 || al > 64) return 3;
-    B[i] = mk(c, al, inf, w);
-  }
-  ns = ai < argc ? atoi(argv[ai++]) : 0;
-  for (i = 0; i < ns && i < 4 && ai < argc; i++) S[i] = strtoul(argv[ai++], 0, 0);
-  nm = ai < argc ? atoi(argv[ai++]) : 0;
-  for (i = 0; i < nm && i < 4 && ai < argc; i++) M[i] = strtoul(argv[ai++], 0, 0);
+  int i;
+  fails = 0;
+  for (i = 0; i < 4; i++) M[i] = Min[i];
+  for (i = 0; i < nb && i < 3; i++) B[i] = mk(BS[i].c, BS[i].al, BS[i].inf, BS[i].w);
 #define IS(n) (!strcmp(fn, "hwloc_bitmap_" n))
 #define INWIN(v) ((v) < NB - 128)
 
@@ -115,14 +107,14 @@ int main(int argc, char **argv)
     chk_eq("result", B[0], &E);
   } else if (IS("realloc_by_ulongs")) {
     int rc; rd(B[0], &A);
-    if (S[0] < 1 || S[0] > NBW - 2) { printf("NOT-REPRODUCED (out of native window)\n"); return 0; }
+    if (S[0] < 1 || S[0] > NBW - 2) { if (!quiet) printf("NOT-REPRODUCED (out of native window)\n"); return 0; }
     rc = hwloc_bitmap_realloc_by_ulongs(B[0], (unsigned)S[0]);
     if (rc != 0) FAIL("returned %d", rc);
     chk_eq("result (abstract value must be unchanged)", B[0], &A);
     if (B[0]->ulongs_count < S[0]) FAIL("count %u < needed %lu", B[0]->ulongs_count, S[0]);
   } else if (IS("only") || IS("allbut") || IS("set") || IS("clr")) {
     unsigned cpu = (unsigned)S[0]; int rc;
-    if (!INWIN(cpu)) { printf("NOT-REPRODUCED (out of native window)\n"); return 0; }
+    if (!INWIN(cpu)) { if (!quiet) printf("NOT-REPRODUCED (out of native window)\n"); return 0; }
     rd(B[0], &A); E = A;
     if (IS("only")) { memset(E.b, 0, NB); E.tail = 0; E.b[cpu] = 1; }
     else if (IS("allbut")) { memset(E.b, 1, NB); E.tail = 1; E.b[cpu] = 0; }
@@ -132,7 +124,7 @@ int main(int argc, char **argv)
     chk_eq("result", B[0], &E);
   } else if (IS("set_range") || IS("clr_range")) {
     unsigned b = (unsigned)S[0]; int e = (int)(long)S[1], rc; int v = IS("set_range");
-    if ((e != -1 && !INWIN((unsigned)e)) || (b <= (unsigned)e && !INWIN(b))) { printf("NOT-REPRODUCED (out of native window)\n"); return 0; }
+    if ((e != -1 && !INWIN((unsigned)e)) || (b <= (unsigned)e && !INWIN(b))) { if (!quiet) printf("NOT-REPRODUCED (out of native window)\n"); return 0; }
     rd(B[0], &A); E = A;
     if ((unsigned)e >= b) {
       for (x = b; x < NB && (e == -1 || x <= (unsigned)e); x++) E.b[x] = v;
@@ -143,7 +135,7 @@ int main(int argc, char **argv)
     chk_eq("result", B[0], &E);
   } else if (IS("from_ulong") || IS("from_ith_ulong") || IS("set_ith_ulong")) {
     unsigned idx = IS("from_ulong") ? 0 : (unsigned)S[0]; unsigned long mask = IS("from_ulong") ? S[0] : S[1]; int rc;
-    if (idx > NBW - 3) { printf("NOT-REPRODUCED (out of native window)\n"); return 0; }
+    if (idx > NBW - 3) { if (!quiet) printf("NOT-REPRODUCED (out of native window)\n"); return 0; }
     rd(B[0], &A); E = A;
     if (!IS("set_ith_ulong")) { memset(E.b, 0, NB); E.tail = 0; }
     for (x = 0; x < 64; x++) E.b[64 * idx + x] = (mask >> x) & 1;
@@ -170,7 +162,7 @@ int main(int argc, char **argv)
     if (got != exp) FAIL("%s returned %#lx, set semantics say %#lx", fn, got, exp);
   } else if (IS("to_ulongs")) {
     unsigned nr = (unsigned)S[0]; unsigned long *m; unsigned k;
-    if (nr > NBW) { printf("NOT-REPRODUCED (out of native window)\n"); return 0; }
+    if (nr > NBW) { if (!quiet) printf("NOT-REPRODUCED (out of native window)\n"); return 0; }
     rd(B[0], &A); m = malloc((nr ? nr : 1) * sizeof(*m));
     if (hwloc_bitmap_to_ulongs(B[0], nr, m) != 0) FAIL("to_ulongs returned non-zero");
     for (k = 0; k < nr; k++) { unsigned long exp = 0; for (x = 0; x < 64; x++) exp |= (unsigned long)A.b[64 * k + x] << x;
@@ -220,7 +212,7 @@ int main(int argc, char **argv)
     if (got != exp) FAIL("%s returned %d, set semantics say %ld", fn, got, exp);
   } else if (IS("next") || IS("next_unset")) {
     long prev = (long)S[0], exp; int got;
-    if (prev < -1 || !INWIN((unsigned long)(prev + 1))) { printf("NOT-REPRODUCED (out of native window)\n"); return 0; }
+    if (prev < -1 || !INWIN((unsigned long)(prev + 1))) { if (!quiet) printf("NOT-REPRODUCED (out of native window)\n"); return 0; }
     rd(B[0], &A);
     exp = m_next(&A, prev, IS("next") ? 1 : 0);
     got = IS("next") ? hwloc_bitmap_next(B[0], (int)prev) : hwloc_bitmap_next_unset(B[0], (int)prev);
@@ -239,10 +231,70 @@ int main(int argc, char **argv)
   } else if (IS("free")) {
     hwloc_bitmap_free(B[0]);
   } else {
-    printf("NOT-REPRODUCED (no native oracle for %s)\n", fn);
+    if (!quiet) printf("NOT-REPRODUCED (no native oracle for %s)\n", fn);
     return 0;
   }
-  if (fails) return 1;
+  return fails;
+}
+
+/* usage: bitmap_replay FN ALIAS NB {count alloc inf w0 w1 w2 w3}*NB NS s0.. NM m0.. [vary GK GK2]
+ * With "vary": the verifier's counterexample only determines the ghost words GK/GK2, the word counts, the tails
+ * and the scalars; all other stored words are don't-cares of the refuted obligation.  They are completed by
+ * enumeration over {as given, 0, ~0, same word of the other bitmap} until the real code disagrees with the oracle. */
+int main(int argc, char **argv)
+{
+  int ai = 1, alias, nb, ns, nm, i, k;
+  const char *fn;
+  struct bspec BS[3];
+  unsigned long S[4] = { 0, 0, 0, 0 }, M[4] = { 0, 0, 0, 0 };
+  if (argc < 4) return 3;
+  fn = argv[ai++]; alias = atoi(argv[ai++]); nb = atoi(argv[ai++]);
+  if (nb > 3) nb = 3;
+  memset(BS, 0, sizeof(BS));
+  for (i = 0; i < nb; i++) {
+    if (ai + 7 > argc) return 3;
+    BS[i].c = strtoul(argv[ai++], 0, 0); BS[i].al = strtoul(argv[ai++], 0, 0); BS[i].inf = atoi(argv[ai++]);
+    for (k = 0; k < 4; k++) BS[i].w[k] = strtoul(argv[ai++], 0, 0);
+    if (BS[i].c < 1 || BS[i].c > 4 || BS[i].al > 64) return 3;
+  }
+  ns = ai < argc ? atoi(argv[ai++]) : 0;
+  for (i = 0; i < ns && i < 4 && ai < argc; i++) S[i] = strtoul(argv[ai++], 0, 0);
+  nm = ai < argc ? atoi(argv[ai++]) : 0;
+  for (i = 0; i < nm && i < 4 && ai < argc; i++) M[i] = strtoul(argv[ai++], 0, 0);
+  if (run_case(fn, alias, nb, BS, S, M)) return 1;
+  if (ai < argc && !strcmp(argv[ai], "vary") && ai + 2 < argc) {
+    unsigned gk = strtoul(argv[ai + 1], 0, 0), gk2 = strtoul(argv[ai + 2], 0, 0);
+    int slots[12][2], nslots = 0, total = 1, v;
+    for (i = 0; i < nb && i < 2; i++)
+      for (k = 0; k < (int)BS[i].c; k++)
+        if ((unsigned)k != gk && (unsigned)k != gk2 && nslots < 8) { slots[nslots][0] = i; slots[nslots][1] = k; nslots++; }
+    for (i = 0; i < nslots; i++) total *= 4;
+    quiet = 1;
+    for (v = 1; v < total; v++) {
+      struct bspec V[3]; int t = v, silent_fails;
+      memcpy(V, BS, sizeof(V));
+      for (i = 0; i < nslots; i++, t /= 4) {
+        int b = slots[i][0], j = slots[i][1], o = 1 - b;
+        switch (t % 4) {
+        case 1: V[b].w[j] = 0UL; break;
+        case 2: V[b].w[j] = ~0UL; break;
+        case 3: V[b].w[j] = (nb >= 2 && (unsigned)j < BS[o].c) ? BS[o].w[j] : (BS[o].inf ? ~0UL : 0UL); break;
+        default: break;
+        }
+      }
+      /* dry run without printing, then a verbose one for the first hit */
+      { FILE *old = stdout; (void)old; }
+      fflush(stdout);
+      { int saved = dup(1); int nul = open("/dev/null", 1); dup2(nul, 1); silent_fails = run_case(fn, alias, nb, V, S, M); fflush(stdout); dup2(saved, 1); close(nul); close(saved); }
+      if (silent_fails) {
+        printf("don't-care words completed (variant %d):", v);
+        for (i = 0; i < nb && i < 2; i++) { printf(" bitmap%d={count=%u inf=%d", i, V[i].c, V[i].inf); for (k = 0; k < (int)V[i].c; k++) printf(" %#lx", V[i].w[k]); printf("}"); }
+        printf("\n");
+        run_case(fn, alias, nb, V, S, M);
+        return 1;
+      }
+    }
+  }
   printf("NOT-REPRODUCED\n");
   return 0;
 }
